@@ -326,6 +326,7 @@ def cargo_iterate(ws, cargo_args, sources, alive, what, max_iter=8, env=None, do
     sources(alive) writes all files and returns ranges_by_file. Returns (alive, dropped{name:[msgs]}, unattributed, ok)"""
     dropped = {}
     unattributed = []
+    retried_infra = False
     for it in range(max_iter):
         ranges_by_file = sources(alive)
         p = cargo(ws, cargo_args + ["--message-format=json", "--offline", "--keep-going"], env)
@@ -344,6 +345,15 @@ def cargo_iterate(ws, cargo_args, sources, alive, what, max_iter=8, env=None, do
             elif not m.get("message", "").startswith("aborting due to"):
                 unattributed.append([m.get("message", "")[:300], (m.get("rendered") or "")[:800]])
         if not bad:
+            # no compiler error at all: cargo itself failed – typically a rustc killed for lack of memory while other jobs
+            # were running. Retry (cargo resumes where it stopped) with fewer parallel rustc processes.
+            if not unattributed and not retried_infra:
+                retried_infra = True
+                log(what, "failed without any compiler error; retrying with -j 4:", p.stderr[-300:].replace("\n", " "))
+                p2 = cargo(ws, cargo_args + ["--message-format=json", "--offline", "--keep-going", "-j", "4"], env)
+                if p2.returncode == 0:
+                    return alive, dropped, [], True
+                p = p2
             log(what, "failed without attributable errors", p.stderr[-1500:])
             return alive, dropped, unattributed or [["cargo failed", p.stderr[-1500:]]], False
         if downgrade is not None:
@@ -606,7 +616,7 @@ def _build_and_run(tier, seed, profiles, decls_override=None):
             cmp("builder", lambda: structure.builder_desc(items, name), want_b)
             N = render.base_width(d)
             dflt = d["default"]
-            want_c = {"zero": 0, "default": None if not dflt else (["lit", dflt["value"]] if dflt["form"] == "lit" else ["const", "C_%s" % name.upper()])}
+            want_c = {"zero": 0, "default": None if not dflt else (["lit", dflt["value"]] if dflt["form"] == "lit" else ["const", dflt.get("const_name") or "C_%s" % name.upper()])}
             cmp("consts", lambda: structure.consts_desc(items, name, d["base"], N not in gen.NATIVE), want_c)
         if d["kind"] == "bitenum" and "enumarms" in m:
             ea = m["enumarms"]
